@@ -24,3 +24,13 @@ pub mod runner5;
 pub mod runner6;
 pub mod runner7;
 pub mod unproj;
+
+/// JSON text -> value without serde_json's nesting limit of 128 (deeply nested CBOR items print as deeply nested JSON)
+pub fn json_deep(s: &str) -> Option<serde_json::Value> {
+    use serde::de::Deserialize;
+    let mut de = serde_json::Deserializer::from_str(s);
+    de.disable_recursion_limit();
+    let v = serde_json::Value::deserialize(&mut de).ok()?;
+    de.end().ok()?;
+    Some(v)
+}
